@@ -59,3 +59,7 @@ def run(ctx):
             ctx.fail(r["fail"].split("/")[0], "call monitor '%s' failed: %s" % (r["fail"], str(r.get("info"))[:600]), case=r)
     hdr = "From Coq Require Import List NArith ZArith String.\nImport ListNotations.\nOpen Scope nat_scope.\nModule C := WV.Model.RendezvousC."
     ctx.model("Run.RunC02", recs, header=hdr)
+    # a peer which does not drain, or answers one call many times, must not wedge the endpoint for the other peers and callers
+    # (the liveness scenarios of C04's multi-session harness)
+    import props.C04 as c04
+    c04.run(ctx, name="C02-multi")
